@@ -98,3 +98,41 @@ PROPS["C20"] = {
     "floors": [("fallback-concurrent", "rounds-with>=2-successful-requesters", 10), ("acquire", "fallback", 5), ("acquire", "mmap", 50),
                ("acquire-mmap-failing", "child-rounds-ok", 1)],
 }
+
+PROPS["C16"] = {
+    "prepare": [prep_refdecoders],
+    "parallel": 4,
+    "units": [
+        {"name": "totality", "pkg": "./zverif/c16", "run": "^TestVerifC16Totality$", "timeout": {"quick": 400, "thorough": 2400},
+         "shards": {"quick": 1, "thorough": 8}},
+        {"name": "exact", "pkg": "./zverif/c16", "run": "^TestVerifC16Exact$", "timeout": {"quick": 400, "thorough": 2400},
+         "shards": {"quick": 1, "thorough": 2}},
+    ],
+    "rule": "totality: byte strings of length 0..16 from rapid (raw bytes; a structured prefix/REX/opcode-map/ModRM generator; real instructions of the "
+            "test binary with mutated bytes, truncations and random tails) checked against the totality invariants (no panic incl. String(), "
+            "1<=Len<=min(15,len), PC-relative field inside the instruction). exact: every function "
+            "(pclntab extents) of the test binary and of toolchain binaries walked in lock step with the reference decoder; Len, Op, PCRel, PCRelOff "
+            "and goom's own displacement reader (bytecode.DecodeRelativeAddr) must agree, also after the displacement bytes of every 5th PC-relative "
+            "instruction are overwritten with 18 boundary values. Non-trivial: a successfully decoded string / instruction; distinct by "
+            "(first opcode bytes, Op, PCRel width, length).",
+    "assumptions": ["the reference decoder is the toolchain's newer copy of the same upstream package (shared ancestry: a bug common to both is invisible)",
+                    "positions the reference cannot decode (AVX2/VEX bodies of hand-written assembly, data in text) end the walk of that function and are counted, not judged"],
+    "floors": [("totality", "decodable-pcrel", 1000), ("exact", "displacement-mutants", 10000)],
+}
+
+PROPS["C17"] = {
+    "prepare": [prep_refdecoders],
+    "parallel": 1,
+    "units": [
+        {"name": "words", "pkg": "./zverif/c17", "run": "^TestVerifC17$", "timeout": {"quick": 600, "thorough": 5400},
+         "shards": {"quick": 1, "thorough": 4}},
+    ],
+    "exhaustive_units": ["words"], "exhaustive_tiers": ("thorough",), "disjoint_shard_units": ["words"],
+    "rule": "thorough: all 2^32 instruction words (4 sequential shards, each internally parallel). quick: a stride-4099 sample of the word space "
+            "(offset by the seed) outside the branch classes plus the branch-class encodings goom's extent/wrapper scans rely on (B, BL, B.cond exhaustively; "
+            "CBZ/CBNZ, TBZ/TBNZ, ADR/ADRP, LDR literal, BR/BLR/RET strided over their free bits). Oracle: Decode and Inst.String never panic; outside "
+            "(w&0xFFD80000)==0xD5080000 both decoders agree on error-vs-instruction, Op and every PC-relative argument. Every enumerated word is distinct "
+            "by construction; a word is non-trivial when it decodes to an instruction.",
+    "assumptions": ["reference = toolchain's newer arm64asm copy (shared ancestry)", "SYS/SYSL encodings are checked for totality only"],
+    "floors": [("words", "with-pcrel-argument", 100000)],
+}
